@@ -46,6 +46,14 @@ def leaf_ref(l, y, n):
             d = np.concatenate([np.array(l["d"][0], float), np.array(l["d"][1], float)])
         else:
             d = np.array(l["d"], float)
+        if l["icov"] == "csand":
+            # N = Bᴴ diag(w) B with a complex-linear bun B; in real coordinates Jᵀ diag(w, w) J
+            from . import _c11_cplx as C
+            J = C.chain_ref(l["bunops"], np.zeros(m), True, {"shape": [n], "dist": [1.0]})[1]
+            w = np.array(l["diag"], float)
+            N = J.T @ np.diag(np.concatenate([w, w])) @ J
+            r = y - d
+            return 0.5 * r @ N @ r, N
         if l["icov"] == "sand":
             A = np.array(l["bun"], float)
             N = A.T @ np.diag(np.array(l["diag"], float)) @ A
@@ -116,6 +124,24 @@ def tree_ref(case, e, x, off, N):
             y[o:o + m], d[o:o + m] = f_val_der(e["f"].get(kk, {"f": "id"}), x[o:o + m])
         v, F = tree_ref(case, e["e"], y, off, N)
         return v, np.diag(d) @ F @ np.diag(d)
+    if k == "cmodel":
+        # complex model chains (NumPy definition side in _c11_cplx): inner energy lives on the chains' outputs
+        from . import _c11_cplx as C
+        keys = sorted({kk for l in G.leaves(e["e"]) for kk in G.leaf_keys(l)})
+        ys, blocks, off_in, o2 = [], [], {}, 0
+        for kk in keys:
+            o, m = off[kk]
+            cin = m == 2 * n
+            y, Jk, _, _ = C.chain_ref(e["ops"].get(kk, []), x[o:o + m], cin, case["dom"])
+            off_in[kk] = (o2, len(y))
+            blocks.append((o2, o, m, Jk))
+            ys.append(y)
+            o2 += len(y)
+        J = np.zeros((o2, N))
+        for r0, o, m, Jk in blocks:
+            J[r0:r0 + Jk.shape[0], o:o + m] = Jk
+        v, F = tree_ref(case, e["e"], np.concatenate(ys), off_in, o2)
+        return v, J.T @ F @ J
     if k == "vmodel":
         A, B = np.array(e["A"], float), np.array(e["B"], float)
         bb = np.exp(B @ x)
